@@ -138,6 +138,16 @@ func (x *Exec) mergeStates(sts []*State) *State {
 		pcs = append(pcs, s.pc)
 	}
 	out.pc = m.def("pc", SBool, Or(pcs...))
+	// copies of whole objects: kept only where every incoming path made the same copy
+	for k, a := range out.alias {
+		for _, s := range sts[1:] {
+			b, ok := s.alias[k]
+			if !ok || b.src != a.src || !sameSnap(a.snap, b.snap) {
+				delete(out.alias, k)
+				break
+			}
+		}
+	}
 	// cells
 	cellKeys := map[*Cell]bool{}
 	for _, s := range sts {
@@ -223,6 +233,18 @@ func sameGhost(a, b Value) bool {
 		return ok1 && ok2 && aa.T == bb.T
 	}
 	return sameValue(a, b)
+}
+
+func sameSnap(a, b map[string]Term) bool {
+	if len(a) != len(b) {
+		return false
+	}
+	for k, v := range a {
+		if b[k] != v {
+			return false
+		}
+	}
+	return true
 }
 
 func (x *Exec) iteGhost(c Term, a, b Value) Value {
@@ -1157,7 +1179,12 @@ func (x *Exec) unop(fr *Frame, st *State, ins *ssa.UnOp) Value {
 			return m.freshValue(ins.Type(), "ld")
 		}
 		x.safeNonNil(fr, st, p, ins.Pos(), "load")
-		return x.retype(x.load(st, p), ins.Type())
+		lv := x.retype(x.load(st, p), ins.Type())
+		if sv, ok := lv.(StructV); ok && p.Cell == nil && p.Leaf == nil && canonObj(p.Ref) == p.Ref {
+			sv.Src, sv.SrcSnap = canonObj(p.Ref), x.mfSnapshot(st)
+			lv = sv
+		}
+		return lv
 	case token.NOT:
 		return Scalar{T: Not(x.boolTerm(v)), Sort: SBool, Typ: ins.Type()}
 	case token.SUB:
